@@ -274,3 +274,509 @@ Proof.
     + apply (is_clen_ext _ _ _ Hm) in Ca. pose proof (is_clen_unique _ _ _ Ca Cb). lia.
     + intros j _ Hj. specialize (Hg j Hj). rewrite !get_sget in Hg. exact Hg.
 Qed.
+
+(* ------------------------------------------------------------------------------------ *)
+(* small helpers for the rules                                                            *)
+(* ------------------------------------------------------------------------------------ *)
+
+Lemma sget_nil i : sget [] i = 1.
+Proof. unfold sget. destruct (N.to_nat i); reflexivity. Qed.
+
+Lemma sget_cons x r i : sget (x :: r) i = if i =? 0 then x else sget r (i - 1).
+Proof.
+  unfold sget. destruct (N.eqb_spec i 0) as [->|H]; [reflexivity|].
+  replace (N.to_nat i) with (S (N.to_nat (i - 1))) by lia. reflexivity.
+Qed.
+
+Lemma sget2 a b i : sget [a; b] i = if i =? 0 then a else if i =? 1 then b else 1.
+Proof.
+  rewrite !sget_cons, sget_nil.
+  destruct (N.eqb_spec i 0); [reflexivity|].
+  destruct (N.eqb_spec (i - 1) 0); destruct (N.eqb_spec i 1); try lia; reflexivity.
+Qed.
+
+Lemma sget3 a b c i :
+  sget [a; b; c] i = if i =? 0 then a else if i =? 1 then b else if i =? 2 then c else 1.
+Proof.
+  rewrite !sget_cons, sget_nil.
+  destruct (N.eqb_spec i 0); [reflexivity|].
+  destruct (N.eqb_spec (i - 1) 0); destruct (N.eqb_spec i 1); try lia; try reflexivity.
+  destruct (N.eqb_spec (i - 1 - 1) 0); destruct (N.eqb_spec i 2); try lia; reflexivity.
+Qed.
+
+(* shrinking one axis never overflows *)
+Lemma shrink_size s dim m : wf s -> m <= get s dim ->
+  prodN (dims s) / get s dim * m * batch s < P32.
+Proof.
+  intros H Hm. pose proof (prod_div_get s dim H) as E. pose proof (wf_size _ H) as Hs.
+  remember (prodN (dims s) / get s dim) as q eqn:Eq. clear Eq.
+  assert (H1 : q * m <= q * get s dim) by (apply N.mul_le_mono_l; exact Hm).
+  assert (H2 : q * m * batch s <= q * get s dim * batch s) by (apply N.mul_le_mono_r; exact H1).
+  rewrite E in H2. lia.
+Qed.
+
+Lemma depth_le8 s : wf s -> depth s <= 8.
+Proof. intro H. unfold depth. pose proof (wf_depth _ H). lia. Qed.
+
+Lemma prod_depth2 s : depth s <= 2 -> prodN (dims s) = get s 0 * get s 1.
+Proof.
+  rewrite !get_sget. unfold sget, depth.
+  change (N.to_nat 0) with 0%nat. change (N.to_nat 1) with 1%nat.
+  destruct (dims s) as [|a [|b [|c t]]]; cbn [length nth]; intro Hl;
+    rewrite ?prodN_cons, ?prodN_nil; lia.
+Qed.
+
+Lemma forallb_ltb n ids : forallb (fun i => i <? n) ids = true <-> Forall (fun i => i < n) ids.
+Proof.
+  rewrite forallb_forall, Forall_forall. split; intros H i Hi; specialize (H i Hi);
+    [apply N.ltb_lt|apply N.ltb_lt]; exact H.
+Qed.
+
+Lemma length_zero_iff (A : Type) (l : list A) : N.of_nat (length l) = 0 <-> l = [].
+Proof. destruct l; cbn [length]; split; intro H; try reflexivity; try discriminate; lia. Qed.
+
+(* ------------------------------------------------------------------------------------ *)
+(* reshape / flatten                                                                      *)
+(* ------------------------------------------------------------------------------------ *)
+
+Definition reshape_admissible (before after : shape) : Prop :=
+  prodN (dims before) = prodN (dims after) /\ (batch after = 1 \/ batch after = batch before).
+
+Theorem reshape_spec before after : wf before -> wf after ->
+  match reshape before after with
+  | Some r => reshape_admissible before after /\ wf r /\ batch r = batch before /\
+              (forall i, get r i = get after i)
+  | None => ~ reshape_admissible before after
+  end.
+Proof.
+  intros Hb Ha. unfold reshape, reshape_admissible, resize_batch, has_batch.
+  rewrite (wf_volume _ Hb), (wf_volume _ Ha).
+  pose proof (wf_batch _ Ha) as Hba.
+  destruct (N.eqb_spec (prodN (dims before)) (prodN (dims after))) as [Ev|Ev]; cbn [negb orb]; [|tauto].
+  assert (Hok : batch after = 1 \/ batch after = batch before ->
+    match update_batch after (batch before) with
+    | Some r => (prodN (dims before) = prodN (dims after) /\
+                 (batch after = 1 \/ batch after = batch before)) /\ wf r /\
+                batch r = batch before /\ (forall i, get r i = get after i)
+    | None => ~ (prodN (dims before) = prodN (dims after) /\
+                 (batch after = 1 \/ batch after = batch before))
+    end).
+  { intro Hc. pose proof (update_batch_get after (batch before) Ha (batch_u32 _ Hb)) as U.
+    destruct (update_batch after (batch before)) as [r|].
+    - destruct U as [_ [Uw [Ub [_ Ug]]]]. tauto.
+    - exfalso. apply U. split; [apply (wf_batch _ Hb)|]. rewrite <- Ev. apply (wf_size _ Hb). }
+  destruct (N.ltb_spec 1 (batch after)) as [H1|H1]; cbn [andb].
+  - destruct (N.eqb_spec (batch after) (batch before)) as [Eb|Eb]; cbn [negb].
+    + apply Hok. right; exact Eb.
+    + lia.
+  - apply Hok. left. lia.
+Qed.
+
+Theorem flatten_spec x : wf x ->
+  match flatten x with
+  | Some r => wf r /\ batch r = batch x /\
+              (forall i, get r i = if i =? 0 then prodN (dims x) else 1)
+  | None => False
+  end.
+Proof.
+  intro H. unfold flatten. rewrite (wf_volume _ H).
+  assert (Hu : Forall u32 [prodN (dims x)]) by (constructor; [apply prod_u32; exact H|constructor]).
+  pose proof (mk_shape_spec [prodN (dims x)] (batch x) Hu (batch_u32 _ H)) as M.
+  destruct (mk_shape [prodN (dims x)] (batch x)) as [r|].
+  - destruct M as [_ [Mw [Mb [Mg _]]]]. split; [exact Mw|]. split; [exact Mb|].
+    intro i. rewrite Mg, sget_cons, sget_nil. reflexivity.
+  - apply M. unfold ctor_admissible. cbn [length]. split; [lia|]. split.
+    + constructor; [apply prod_pos; exact H|constructor].
+    + split; [apply (wf_batch _ H)|]. rewrite prodN_cons, prodN_nil, N.mul_1_r. apply (wf_size _ H).
+Qed.
+
+(* ------------------------------------------------------------------------------------ *)
+(* scalar_op / elementwise                                                                *)
+(* ------------------------------------------------------------------------------------ *)
+
+Definition batch_compatible (a b : shape) : Prop :=
+  batch a = batch b \/ batch a = 1 \/ batch b = 1.
+
+Definition scalar_op_admissible (x k : shape) : Prop :=
+  (forall i, get k i = 1) /\ batch_compatible x k /\
+  prodN (dims x) * N.max (batch x) (batch k) < P32.
+
+Theorem scalar_op_spec x k : wf x -> wf k ->
+  match scalar_op x k with
+  | Some r => scalar_op_admissible x k /\ wf r /\ batch r = N.max (batch x) (batch k) /\
+              (forall i, get r i = get x i)
+  | None => ~ scalar_op_admissible x k
+  end.
+Proof.
+  intros Hx Hk. unfold scalar_op, scalar_op_admissible, resize_batch.
+  pose proof (is_scalar_spec k Hk) as S1. pose proof (has_compatible_batch_spec x k) as S2.
+  fold (batch_compatible x k) in S2.
+  destruct (is_scalar k) eqn:E1; cbn [negb orb].
+  2: { intros [A _]. apply S1 in A. discriminate. }
+  destruct (has_compatible_batch x k) eqn:E2; cbn [negb].
+  2: { intros [_ [A _]]. apply S2 in A. discriminate. }
+  pose proof (update_batch_get x (N.max (batch x) (batch k)) Hx
+                (max_u32 _ _ (batch_u32 _ Hx) (batch_u32 _ Hk))) as U.
+  destruct (update_batch x (N.max (batch x) (batch k))) as [r|].
+  - destruct U as [[_ U1] [Uw [Ub [_ Ug]]]].
+    split; [split; [apply S1; reflexivity|split; [apply S2; reflexivity|exact U1]]|]. tauto.
+  - intros [_ [_ A]]. apply U. split; [|exact A]. pose proof (wf_batch _ Hx). lia.
+Qed.
+
+Definition elementwise_admissible (a b : shape) : Prop :=
+  (forall i, get a i = get b i) /\ batch_compatible a b.
+
+Theorem elementwise_spec a b : wf a -> wf b ->
+  match elementwise a b with
+  | Some r => elementwise_admissible a b /\ wf r /\ batch r = N.max (batch a) (batch b) /\
+              (forall i, get r i = get a i)
+  | None => ~ elementwise_admissible a b
+  end.
+Proof.
+  intros Ha Hb. unfold elementwise, elementwise_admissible, resize_batch.
+  pose proof (has_same_dims_spec a b Ha Hb) as S1. pose proof (has_compatible_batch_spec a b) as S2.
+  fold (batch_compatible a b) in S2.
+  destruct (has_same_dims a b) eqn:E1; cbn [negb orb].
+  2: { intros [A _]. apply S1 in A. discriminate. }
+  destruct (has_compatible_batch a b) eqn:E2; cbn [negb].
+  2: { intros [_ A]. apply S2 in A. discriminate. }
+  pose proof (update_batch_get a (N.max (batch a) (batch b)) Ha
+                (max_u32 _ _ (batch_u32 _ Ha) (batch_u32 _ Hb))) as U.
+  destruct (update_batch a (N.max (batch a) (batch b))) as [r|].
+  - destruct U as [_ [Uw [Ub [_ Ug]]]].
+    split; [split; [apply S1; reflexivity|apply S2; reflexivity]|]. tauto.
+  - exfalso. apply U. split; [pose proof (wf_batch _ Ha); lia|].
+    assert (Ed : dims a = dims b) by (apply dims_eq_iff_get; auto; apply S1; reflexivity).
+    pose proof (wf_size _ Ha) as Sa. pose proof (wf_size _ Hb) as Sb. rewrite <- Ed in Sb.
+    destruct (N.max_spec (batch a) (batch b)) as [[_ ->]|[_ ->]]; assumption.
+Qed.
+
+(* ------------------------------------------------------------------------------------ *)
+(* slice / broadcast / reduce / split                                                     *)
+(* ------------------------------------------------------------------------------------ *)
+
+Definition slice_admissible (x : shape) (dim lower upper : N) : Prop :=
+  lower < upper /\ upper <= get x dim.
+
+Theorem slice_spec x dim lower upper : wf x -> u32 dim -> u32 lower -> u32 upper ->
+  match slice x dim lower upper with
+  | Some r => slice_admissible x dim lower upper /\ wf r /\ batch r = batch x /\
+              (forall i, get r i = if i =? dim then upper - lower else get x i)
+  | None => ~ slice_admissible x dim lower upper
+  end.
+Proof.
+  intros Hx Hd Hl Hu. unfold slice, slice_admissible, resize_dim.
+  destruct (N.leb_spec upper lower) as [H1|H1]; cbn [orb]; [lia|].
+  destruct (N.ltb_spec (get x dim) upper) as [H2|H2]; [lia|].
+  destruct (N.leb_spec (depth x) dim) as [H3|H3].
+  - pose proof (get_overflow x dim H3) as Eg.
+    split; [lia|]. split; [exact Hx|]. split; [reflexivity|].
+    intro i. destruct (N.eqb_spec i dim) as [->|Hi]; [lia|reflexivity].
+  - assert (Hm : u32 (upper - lower)) by (unfold u32 in *; lia).
+    pose proof (update_dim_spec x dim (upper - lower) Hx Hd Hm) as U.
+    destruct (update_dim x dim (upper - lower)) as [r|].
+    + destruct U as [_ [Uw [Ub [Ug _]]]]. split; [lia|]. tauto.
+    + exfalso. apply U. unfold update_dim_admissible.
+      pose proof (depth_le8 x Hx). split; [lia|]. split; [lia|].
+      apply shrink_size; [exact Hx|lia].
+Qed.
+
+Definition broadcast_admissible (x : shape) (dim sz : N) : Prop :=
+  get x dim = 1 /\ 0 < sz /\ dim < 8 /\ prodN (dims x) * sz * batch x < P32.
+
+Theorem broadcast_spec x dim sz : wf x -> u32 dim -> u32 sz ->
+  match broadcast x dim sz with
+  | Some r => broadcast_admissible x dim sz /\ wf r /\ batch r = batch x /\
+              (forall i, get r i = if i =? dim then sz else get x i)
+  | None => ~ broadcast_admissible x dim sz
+  end.
+Proof.
+  intros Hx Hd Hs. unfold broadcast, broadcast_admissible, resize_dim.
+  destruct (N.eqb_spec (get x dim) 1) as [E1|E1]; cbn [negb orb]; [|tauto].
+  destruct (N.eqb_spec sz 0) as [E2|E2]; [lia|].
+  pose proof (update_dim_spec x dim sz Hx Hd Hs) as U. unfold update_dim_admissible in U.
+  rewrite E1, N.div_1_r in U.
+  destruct (update_dim x dim sz) as [r|].
+  - destruct U as [Ua [Uw [Ub [Ug _]]]]. tauto.
+  - tauto.
+Qed.
+
+Definition reduce_admissible (x : shape) (dim : N) : Prop := dim < 8.
+
+Theorem reduce_spec x dim : wf x -> u32 dim ->
+  match reduce x dim with
+  | Some r => reduce_admissible x dim /\ wf r /\ batch r = batch x /\
+              (forall i, get r i = if i =? dim then 1 else get x i)
+  | None => ~ reduce_admissible x dim
+  end.
+Proof.
+  intros Hx Hd. unfold reduce, reduce_admissible, resize_dim.
+  assert (H1 : u32 1) by (unfold u32, P32; lia).
+  pose proof (update_dim_spec x dim 1 Hx Hd H1) as U. unfold update_dim_admissible in U.
+  pose proof (get_pos x dim Hx) as Hg.
+  assert (Hs : prodN (dims x) / get x dim * 1 * batch x < P32) by (apply shrink_size; [exact Hx|lia]).
+  destruct (update_dim x dim 1) as [r|].
+  - destruct U as [Ua [Uw [Ub [Ug _]]]]. tauto.
+  - intro A. apply U. split; [exact A|]. split; [lia|exact Hs].
+Qed.
+
+Definition split_admissible (x : shape) (dim n : N) : Prop :=
+  0 < n /\ get x dim mod n = 0 /\ dim < 8.
+
+Theorem split_spec x dim n : wf x -> u32 dim -> u32 n ->
+  match split x dim n with
+  | Some r => split_admissible x dim n /\ wf r /\ batch r = batch x /\
+              (forall i, get r i = if i =? dim then get x dim / n else get x i)
+  | None => ~ split_admissible x dim n
+  end.
+Proof.
+  intros Hx Hd Hn. unfold split, split_admissible.
+  destruct (N.eqb_spec n 0) as [E0|E0]; [lia|].
+  pose proof (get_pos x dim Hx) as Hg. pose proof (get_u32 x dim Hx) as Hgu.
+  pose proof (N.div_mod (get x dim) n E0) as Edm.
+  pose proof (N.mod_lt (get x dim) n E0) as Hml.
+  remember (get x dim / n) as span eqn:Esp. remember (get x dim mod n) as rm eqn:Erm.
+  assert (Hsm : span * n <= get x dim) by lia.
+  rewrite wrap32_small by (unfold u32 in Hgu; lia).
+  destruct (N.eqb_spec (span * n) (get x dim)) as [E1|E1]; cbn [negb]; [|lia].
+  assert (Hsp : 0 < span /\ span <= get x dim) by nia.
+  assert (Hspu : u32 span) by (unfold u32 in *; lia).
+  pose proof (update_dim_spec x dim span Hx Hd Hspu) as U. unfold update_dim_admissible in U.
+  assert (Hs : prodN (dims x) / get x dim * span * batch x < P32) by (apply shrink_size; [exact Hx|lia]).
+  destruct (update_dim x dim span) as [r|].
+  - destruct U as [[Ua _] [Uw [Ub [Ug _]]]]. split; [lia|]. tauto.
+  - intros [_ [_ A]]. apply U. split; [exact A|]. split; [lia|exact Hs].
+Qed.
+
+(* ------------------------------------------------------------------------------------ *)
+(* pick                                                                                   *)
+(* ------------------------------------------------------------------------------------ *)
+
+Definition pick_admissible (x : shape) (ids : list N) (dim : N) : Prop :=
+  let bi := N.of_nat (length ids) in
+  ids <> [] /\ (batch x = bi \/ batch x = 1 \/ bi = 1) /\
+  Forall (fun i => i < get x dim) ids /\ dim < 8 /\
+  prodN (dims x) / get x dim * N.max (batch x) bi < P32.
+
+Theorem pick_spec x ids dim : wf x -> Forall u32 ids -> u32 (N.of_nat (length ids)) -> u32 dim ->
+  match pick x ids dim with
+  | Some r => pick_admissible x ids dim /\ wf r /\
+              batch r = N.max (batch x) (N.of_nat (length ids)) /\
+              (forall i, get r i = if i =? dim then 1 else get x i)
+  | None => ~ pick_admissible x ids dim
+  end.
+Proof.
+  intros Hx _ Hbi Hd. unfold pick, pick_admissible, resize_dim, has_batch.
+  pose proof (wf_batch _ Hx) as Hb. pose proof (length_zero_iff _ ids) as Hz.
+  set (bi := N.of_nat (length ids)) in *.
+  destruct (N.eqb_spec bi 0) as [E0|E0]; cbn [orb]; [tauto|].
+  assert (Hne : ids <> []) by tauto.
+  destruct (N.eqb_spec (batch x) bi) as [E1|E1]; cbn [negb andb];
+    [|destruct (N.ltb_spec 1 (batch x)) as [E2|E2]; cbn [andb];
+      [destruct (N.ltb_spec 1 bi) as [E3|E3]; [lia|]|]].
+  all: assert (Hc : batch x = bi \/ batch x = 1 \/ bi = 1) by lia.
+  all: pose proof (forallb_ltb (get x dim) ids) as F;
+       destruct (forallb (fun i => i <? get x dim) ids); cbn [negb];
+       [|intros [_ [_ [A _]]]; apply F in A; discriminate].
+  all: assert (Hf : Forall (fun i => i < get x dim) ids) by (apply F; reflexivity).
+  all: assert (H1 : u32 1) by (unfold u32, P32; lia).
+  all: pose proof (update_dim_spec x dim 1 Hx Hd H1) as U; unfold update_dim_admissible in U.
+  all: pose proof (get_pos x dim Hx) as Hg.
+  all: assert (Hs : prodN (dims x) / get x dim * 1 * batch x < P32) by (apply shrink_size; [exact Hx|lia]).
+  all: destruct (update_dim x dim 1) as [r1|];
+       [|intros [_ [_ [_ [A _]]]]; apply U; split; [exact A|split; [lia|exact Hs]]].
+  all: destruct U as [[Ua _] [Uw [Ub [Ug Up]]]].
+  all: pose proof (update_batch_get r1 (N.max (batch x) bi) Uw (max_u32 _ _ (batch_u32 _ Hx) Hbi)) as V.
+  all: rewrite Up, N.mul_1_r in V.
+  all: destruct (update_batch r1 (N.max (batch x) bi)) as [r|].
+  all: try (destruct V as [[_ V1] [Vw [Vb [_ Vg]]]];
+            split; [tauto|]; split; [exact Vw|]; split; [exact Vb|]; intro i; rewrite Vg; apply Ug).
+  all: intros [_ [_ [_ [_ A]]]]; apply V; split; [lia|exact A].
+Qed.
+
+(* ------------------------------------------------------------------------------------ *)
+(* transpose / matmul / identity                                                          *)
+(* ------------------------------------------------------------------------------------ *)
+
+Definition transpose_admissible (x : shape) : Prop := depth x <= 2.
+
+Theorem transpose_spec x : wf x ->
+  match transpose x with
+  | Some r => transpose_admissible x /\ wf r /\ batch r = batch x /\
+              (forall i, get r i = if i =? 0 then get x 1 else if i =? 1 then get x 0 else 1)
+  | None => ~ transpose_admissible x
+  end.
+Proof.
+  intro Hx. unfold transpose, transpose_admissible, is_matrix.
+  destruct (N.leb_spec (depth x) 2) as [H2|H2]; cbn [negb]; [|lia].
+  assert (Hu : Forall u32 [get x 1; get x 0]) by (repeat constructor; apply get_u32; exact Hx).
+  pose proof (mk_shape_spec [get x 1; get x 0] (batch x) Hu (batch_u32 _ Hx)) as M.
+  destruct (mk_shape [get x 1; get x 0] (batch x)) as [r|].
+  - destruct M as [_ [Mw [Mb [Mg _]]]]. split; [exact H2|]. split; [exact Mw|]. split; [exact Mb|].
+    intro i. rewrite Mg. apply sget2.
+  - exfalso. apply M. unfold ctor_admissible. cbn [length]. split; [lia|]. split.
+    + repeat constructor; apply get_pos; exact Hx.
+    + split; [apply (wf_batch _ Hx)|]. rewrite !prodN_cons, prodN_nil.
+      pose proof (wf_size _ Hx) as Hs. rewrite (prod_depth2 x H2) in Hs. lia.
+Qed.
+
+Definition matmul_admissible (l r : shape) : Prop :=
+  depth l <= 2 /\ depth r <= 2 /\ get l 1 = get r 0 /\ batch_compatible l r /\
+  get l 0 * get r 1 * N.max (batch l) (batch r) < P32.
+
+Theorem matmul_spec l r : wf l -> wf r ->
+  match matmul l r with
+  | Some y => matmul_admissible l r /\ wf y /\ batch y = N.max (batch l) (batch r) /\
+              (forall i, get y i = if i =? 0 then get l 0 else if i =? 1 then get r 1 else 1)
+  | None => ~ matmul_admissible l r
+  end.
+Proof.
+  intros Hl Hr. unfold matmul, matmul_admissible, is_matrix.
+  pose proof (has_compatible_batch_spec l r) as S2. fold (batch_compatible l r) in S2.
+  destruct (N.leb_spec (depth l) 2) as [H1|H1]; cbn [negb orb]; [|lia].
+  destruct (N.leb_spec (depth r) 2) as [H2|H2]; cbn [negb orb]; [|lia].
+  destruct (N.eqb_spec (get l 1) (get r 0)) as [H3|H3]; cbn [negb orb]; [|tauto].
+  destruct (has_compatible_batch l r) eqn:E4; cbn [negb].
+  2: { intros [_ [_ [_ [A _]]]]. apply S2 in A. discriminate. }
+  assert (Hu : Forall u32 [get l 0; get r 1]) by (repeat constructor; apply get_u32; assumption).
+  pose proof (mk_shape_spec [get l 0; get r 1] (N.max (batch l) (batch r)) Hu
+                (max_u32 _ _ (batch_u32 _ Hl) (batch_u32 _ Hr))) as M.
+  unfold ctor_admissible in M. rewrite !prodN_cons, prodN_nil, N.mul_1_r in M.
+  destruct (mk_shape [get l 0; get r 1] (N.max (batch l) (batch r))) as [y|].
+  - destruct M as [[_ [_ [_ Ms]]] [Mw [Mb [Mg _]]]].
+    split; [split; [exact H1|split; [exact H2|split; [exact H3|split; [apply S2; reflexivity|exact Ms]]]]|].
+    split; [exact Mw|]. split; [exact Mb|]. intro i. rewrite Mg. apply sget2.
+  - intros [_ [_ [_ [_ A]]]]. apply M. cbn [length]. split; [lia|]. split.
+    + repeat constructor; apply get_pos; assumption.
+    + split; [pose proof (wf_batch _ Hl); lia|exact A].
+Qed.
+
+Definition identity_admissible (sz : N) : Prop := 0 < sz /\ sz * sz < P32.
+
+Theorem identity_spec sz : u32 sz ->
+  match identity sz with
+  | Some r => identity_admissible sz /\ wf r /\ batch r = 1 /\
+              (forall i, get r i = if i <? 2 then sz else 1)
+  | None => ~ identity_admissible sz
+  end.
+Proof.
+  intro Hs. unfold identity, identity_admissible.
+  assert (Hu : Forall u32 [sz; sz]) by (repeat constructor; exact Hs).
+  assert (H1 : u32 1) by (unfold u32, P32; lia).
+  pose proof (mk_shape_spec [sz; sz] 1 Hu H1) as M.
+  unfold ctor_admissible in M. rewrite !prodN_cons, prodN_nil, !N.mul_1_r in M.
+  destruct (mk_shape [sz; sz] 1) as [r|].
+  - destruct M as [[_ [Mp [_ Ms]]] [Mw [Mb [Mg _]]]]. inversion Mp; subst.
+    split; [tauto|]. split; [exact Mw|]. split; [exact Mb|]. intro i. rewrite Mg, sget2.
+    destruct (N.eqb_spec i 0); destruct (N.eqb_spec i 1); destruct (N.ltb_spec i 2); try lia; reflexivity.
+  - intros [A B]. apply M. cbn [length]. split; [lia|]. split; [repeat constructor; exact A|]. split; [lia|exact B].
+Qed.
+
+(* ------------------------------------------------------------------------------------ *)
+(* batch_pick / batch_slice / batch_split / batch_sum / sce                               *)
+(* ------------------------------------------------------------------------------------ *)
+
+Definition batch_pick_admissible (x : shape) (ids : list N) : Prop :=
+  ids <> [] /\ Forall (fun i => i < batch x) ids /\
+  prodN (dims x) * N.of_nat (length ids) < P32.
+
+Theorem batch_pick_spec x ids : wf x -> Forall u32 ids -> u32 (N.of_nat (length ids)) ->
+  match batch_pick x ids with
+  | Some r => batch_pick_admissible x ids /\ wf r /\ batch r = N.of_nat (length ids) /\
+              (forall i, get r i = get x i)
+  | None => ~ batch_pick_admissible x ids
+  end.
+Proof.
+  intros Hx _ Hbi. unfold batch_pick, batch_pick_admissible, resize_batch.
+  pose proof (length_zero_iff _ ids) as Hz.
+  destruct (N.eqb_spec (N.of_nat (length ids)) 0) as [E0|E0]; [tauto|].
+  pose proof (forallb_ltb (batch x) ids) as F.
+  destruct (forallb (fun i => i <? batch x) ids); cbn [negb];
+    [|intros [_ [A _]]; apply F in A; discriminate].
+  pose proof (update_batch_get x (N.of_nat (length ids)) Hx Hbi) as U.
+  destruct (update_batch x (N.of_nat (length ids))) as [r|].
+  - destruct U as [[_ U1] [Uw [Ub [_ Ug]]]].
+    split; [split; [tauto|split; [apply F; reflexivity|exact U1]]|]. tauto.
+  - intros [_ [_ A]]. apply U. split; [lia|exact A].
+Qed.
+
+Definition batch_slice_admissible (x : shape) (lower upper : N) : Prop :=
+  lower < upper /\ upper <= batch x.
+
+Theorem batch_slice_spec x lower upper : wf x -> u32 lower -> u32 upper ->
+  match batch_slice x lower upper with
+  | Some r => batch_slice_admissible x lower upper /\ wf r /\ batch r = upper - lower /\
+              (forall i, get r i = get x i)
+  | None => ~ batch_slice_admissible x lower upper
+  end.
+Proof.
+  intros Hx Hl Hu. unfold batch_slice, batch_slice_admissible, resize_batch.
+  destruct (N.leb_spec upper lower) as [H1|H1]; cbn [orb]; [lia|].
+  destruct (N.ltb_spec (batch x) upper) as [H2|H2]; [lia|].
+  assert (Hm : u32 (upper - lower)) by (unfold u32 in *; lia).
+  pose proof (update_batch_get x (upper - lower) Hx Hm) as U.
+  destruct (update_batch x (upper - lower)) as [r|].
+  - destruct U as [_ [Uw [Ub [_ Ug]]]]. split; [lia|]. tauto.
+  - exfalso. apply U. split; [lia|]. pose proof (wf_size _ Hx). pose proof (prod_pos x Hx). nia.
+Qed.
+
+Definition batch_split_admissible (x : shape) (n : N) : Prop := 0 < n /\ batch x mod n = 0.
+
+Theorem batch_split_spec x n : wf x -> u32 n ->
+  match batch_split x n with
+  | Some r => batch_split_admissible x n /\ wf r /\ batch r = batch x / n /\
+              (forall i, get r i = get x i)
+  | None => ~ batch_split_admissible x n
+  end.
+Proof.
+  intros Hx Hn. unfold batch_split, batch_split_admissible.
+  destruct (N.eqb_spec n 0) as [E0|E0]; [lia|].
+  pose proof (wf_batch _ Hx) as Hb. pose proof (batch_u32 x Hx) as Hbu.
+  pose proof (N.div_mod (batch x) n E0) as Edm.
+  pose proof (N.mod_lt (batch x) n E0) as Hml.
+  remember (batch x / n) as span eqn:Esp. remember (batch x mod n) as rm eqn:Erm.
+  assert (Hsm : span * n <= batch x) by lia.
+  rewrite wrap32_small by (unfold u32 in Hbu; lia).
+  destruct (N.eqb_spec (span * n) (batch x)) as [E1|E1]; cbn [negb]; [|lia].
+  assert (Hsp : 0 < span /\ span <= batch x) by nia.
+  assert (Hspu : u32 span) by (unfold u32 in *; lia).
+  pose proof (update_batch_get x span Hx Hspu) as U.
+  destruct (update_batch x span) as [r|].
+  - destruct U as [_ [Uw [Ub [_ Ug]]]]. split; [lia|]. tauto.
+  - exfalso. apply U. split; [lia|]. pose proof (wf_size _ Hx). pose proof (prod_pos x Hx). nia.
+Qed.
+
+Theorem batch_sum_spec x : wf x ->
+  match batch_sum x with
+  | Some r => wf r /\ batch r = 1 /\ (forall i, get r i = get x i)
+  | None => False
+  end.
+Proof.
+  intro Hx. unfold batch_sum, resize_batch.
+  assert (H1 : u32 1) by (unfold u32, P32; lia).
+  pose proof (update_batch_get x 1 Hx H1) as U.
+  destruct (update_batch x 1) as [r|].
+  - destruct U as [_ [Uw [Ub [_ Ug]]]]. tauto.
+  - apply U. split; [lia|]. rewrite N.mul_1_r. apply prod_u32; exact Hx.
+Qed.
+
+Definition sce_admissible (x t : shape) (dim : N) : Prop :=
+  (forall i, get x i = get t i) /\ batch_compatible x t /\ dim < 8.
+
+Theorem sce_spec x t dim : wf x -> wf t -> u32 dim ->
+  match sce x t dim with
+  | Some r => sce_admissible x t dim /\ wf r /\ batch r = N.max (batch x) (batch t) /\
+              (forall i, get r i = if i =? dim then 1 else get x i)
+  | None => ~ sce_admissible x t dim
+  end.
+Proof.
+  intros Hx Ht Hd. unfold sce, sce_admissible.
+  pose proof (elementwise_spec x t Hx Ht) as E. unfold elementwise_admissible in E.
+  destruct (elementwise x t) as [y|]; [|tauto].
+  destruct E as [[E1 E2] [Ew [Eb Eg]]].
+  pose proof (reduce_spec y dim Ew Hd) as R. unfold reduce, resize_dim, reduce_admissible in R.
+  destruct (update_dim y dim 1) as [r|].
+  - destruct R as [Ra [Rw [Rb Rg]]]. split; [tauto|]. split; [exact Rw|]. split; [congruence|].
+    intro i. rewrite Rg, Eg. reflexivity.
+  - tauto.
+Qed.
